@@ -244,6 +244,7 @@ func startMain(doc []byte) error {
 		case <-done:
 		case <-time.After(20 * time.Second):
 		}
+		ln.Close()
 	}()
 	deadline := time.Now().Add(20 * time.Second)
 	for {
@@ -256,7 +257,7 @@ func startMain(doc []byte) error {
 			return fmt.Errorf("Main stopped at start-up with the shipped configuration: %v", err)
 		default:
 		}
-		resp, err := http.Get("http://" + ln.Addr().String() + "/witness/v0/logs")
+		resp, err := (&http.Client{Timeout: 500 * time.Millisecond}).Get("http://" + ln.Addr().String() + "/witness/v0/logs")
 		if err == nil {
 			resp.Body.Close()
 			if resp.StatusCode == 200 {
